@@ -74,6 +74,10 @@ def run(ctx):
     r2(ctx)
     r3(ctx)
     r4(ctx)
+    # "each operation gives the same result no matter what was done before": the per-view cache slots (C02.R3)
+    from rules import c02
+
+    ctx.import_obligations("R5", c02.r3)
 
 
 def r2(ctx):
